@@ -252,7 +252,8 @@ Lemma sample_direct_law fixed m n A b x0 ce cx mu C :
     qinv CeM = Some Pe /\ qinv CxM = Some Px /\ qinv (post_prec n A Pe Px) = Some C.
 Proof.
   unfold sample_direct, map_direct.
-  destruct (map_core m n A b x0 (expand_cov fixed m ce) (expand_cov fixed n cx)) as [x| | |] eqn:EM; try discriminate.
+  destruct (sparse_single ce || sparse_single cx); [discriminate|].
+  destruct (map_core m n A b x0 (expand_cov fixed m ce) (expand_cov fixed n cx)) as [x| | | |] eqn:EM; try discriminate.
   destruct (np_inv ce _) as [Pe|] eqn:E1; [|discriminate].
   destruct (np_inv cx _) as [Px|] eqn:E2; [|discriminate].
   destruct (qinv (post_prec n A Pe Px)) as [C'|] eqn:E3; [|discriminate].
@@ -364,6 +365,7 @@ Lemma cascade_inv joint P s q d :
   | SpCN => joint = false /\ c1 = false /\ c2 = false /\ c3 = false /\ c4 = false /\ c5 = true
   | SRegLinearRTO => joint = false /\ c1 = false /\ c2 = false /\ c3 = false /\ c4 = false /\ c5 = false /\ c6 = true
   | SNotImplemented => joint = false /\ c1 = false /\ c2 = false /\ c3 = false /\ c4 = false /\ c5 = false /\ c6 = false
+  | SProbeRaises => False
   end.
 Proof.
   intros c1 c2 c3 c4 c5 c6. unfold sample_route. fold c1 c2 c3 c4 c5 c6.
